@@ -400,3 +400,17 @@ theorem ax_bigprod_split_at (f : ℕ → ℝ) (i n : ℕ) (h : i < n) :
   intro u _
   congr 1
   omega
+
+/-! ### G-mode: operands of reciprocal nodes (normal form of products) -/
+theorem ax_bigprod_inv (x : ℕ → ℝ) (n : ℕ) (h : ∀ i, i < n → x i ≠ 0) :
+    (∏ i ∈ Finset.range n, x i) ≠ 0 ∧ ∏ i ∈ Finset.range n, 1 / x i = 1 / ∏ i ∈ Finset.range n, x i := by
+  constructor
+  · exact Finset.prod_ne_zero_iff.mpr (fun i hi => h i (Finset.mem_range.mp hi))
+  · simp [Finset.prod_inv_distrib]
+
+theorem ax_bigprod_inv_mul (x : ℕ → ℝ) (n : ℕ) (h : ∀ i, i < n → x i ≠ 0) :
+    (∏ i ∈ Finset.range n, 1 / x i) * ∏ i ∈ Finset.range n, x i = 1 := by
+  rw [← Finset.prod_mul_distrib]
+  apply Finset.prod_eq_one
+  intro i hi
+  field_simp [h i (Finset.mem_range.mp hi)]
